@@ -70,7 +70,6 @@ type subject struct {
 	aliasEmpty bool   // boltdb: the empty key is stored as "nil" (documented in boltdb.go nonEmptyKey)
 	reopen     bool
 	kname      string // name used in violation keys (one key per root cause, not per backend underneath)
-	walless    bool // opened without a WAL in no-sync mode: a close/reopen is only meaningful with default options
 }
 
 func (s *subject) keyName() string {
@@ -101,9 +100,9 @@ type noSyncFS struct{ vfs.FS }
 
 type noSyncFile struct{ vfs.File }
 
-func (noSyncFile) Sync() error                 { return nil }
-func (noSyncFile) SyncData() error             { return nil }
-func (noSyncFile) SyncTo(int64) (bool, error)  { return false, nil }
+func (noSyncFile) Sync() error                { return nil }
+func (noSyncFile) SyncData() error            { return nil }
+func (noSyncFile) SyncTo(int64) (bool, error) { return false, nil }
 func wrapF(f vfs.File, err error) (vfs.File, error) {
 	if err != nil {
 		return nil, err
@@ -704,11 +703,12 @@ type snapRec struct {
 }
 
 type env struct {
-	s      *subject
-	keys   [][]byte // point-read menu (nil, "" and all written keys)
-	bounds [][]byte // iterator bound menu (nil included)
-	ops    []op
-	sync   bool
+	s           *subject
+	keys        [][]byte // point-read menu (nil, "" and all written keys)
+	bounds      [][]byte // iterator bound menu (nil included)
+	ops         []op
+	sync        bool
+	reopenEvery int // close/reopen check at every n-th state of a level (disk backends)
 }
 
 // observe compares everything cheap: point reads and the two full iterations; returns the raw observation digest.
@@ -897,6 +897,8 @@ func pathStrings(ops []op, path []uint16) []string {
 	return out
 }
 
+var printed = map[string]bool{}
+
 var (
 	crossMu sync.Mutex
 	cross   = map[string]map[string][32]byte{} // class -> stateKey|op -> digest of raw observations
@@ -1032,7 +1034,7 @@ func explore(e *env, maxDepth int, tag string) sstats {
 						}
 					}
 					closeSnaps(snaps)
-					if s.reopen && !s.collecting && (e.sync || !s.walless) {
+					if s.reopen && !s.collecting && (e.reopenEvery > 0 && pi%e.reopenEvery == 0) {
 						if err := e.reopen(sc); err != nil {
 							harnessErr.Store("reopen: " + err.Error())
 							stop.Store(true)
@@ -1163,7 +1165,8 @@ func explore(e *env, maxDepth int, tag string) sstats {
 			}
 			key := s.keyName() + ": " + f.class
 			isNew := r.Violation(key, map[string]any{"subject": s.name, "class": f.class, "history": f.path, "mismatch": f.detail})
-			if isNew {
+			if isNew && !printed[key] {
+				printed[key] = true
 				fmt.Printf("  %s\n    history: %s\n    => %s\n", key, strings.Join(f.path, " ; "), f.detail)
 			}
 			tolerated[f.class] = true // reported once (minimal history); exploration continues past it
@@ -1176,7 +1179,7 @@ func explore(e *env, maxDepth int, tag string) sstats {
 			st.exhaustive = false
 			break
 		}
-		if stop.Load() {
+		if stop.Load() || r.Capped() {
 			st.exhaustive = false
 			break
 		}
@@ -1366,6 +1369,12 @@ func aliasProbes(s *subject, sync bool) int {
 			applyReal(s, in, op{kind: kDrain})
 			m.apply(s, op{kind: kDrain})
 		}
+		e0 := &env{s: s, keys: [][]byte{[]byte("a"), []byte("b")}}
+		if e0.observe(in, m, nil) != nil {
+			in.closeFn() // the subject is already wrong before anything is scribbled on: not an aliasing question
+			r.Outcome("alias_probe:skipped_subject_already_wrong")
+			continue
+		}
 		n++
 		if err := p.run(in); err != nil {
 			if !(strings.Contains(p.name, "Snapshot")) {
@@ -1407,6 +1416,12 @@ func main() {
 	r = vk.New("model_checking")
 	r.SetBudget(85*time.Second, 20*time.Minute)
 	log.SetOutput(io.Discard) // pebble's default logger reports WAL replays on reopen
+	if r.ReplayIn != "" {
+		// violation keys are class-stable ("<subject>: <mismatch class>"); the artefact holds the BFS-minimal history.
+		// Replaying = re-running the (deterministic) quick exploration, which re-reports the key if it still reproduces.
+		b, _ := os.ReadFile(r.ReplayIn)
+		fmt.Printf("replay artefact:\n%s\nre-running the quick exploration:\n", b)
+	}
 	os.RemoveAll(workRoot)
 	os.MkdirAll(workRoot, 0o755)
 
@@ -1439,7 +1454,7 @@ func main() {
 	}
 	csubjects := []*subject{collecting("memdb", false, openMem, true)}
 	if th {
-		csubjects = append(csubjects, collecting("goleveldb", true, openLevel, false), collecting("pebbledb", true, openPebble, true))
+		csubjects = append(csubjects, collecting("pebbledb", true, openPebble, true))
 	}
 
 	per := map[string]any{}
@@ -1447,6 +1462,10 @@ func main() {
 	exhaustive := true
 	run := func(s *subject, e *env, depth int, tag string) {
 		t0 := time.Now()
+		e.reopenEvery = 1
+		if !th && !e.sync {
+			e.reopenEvery = 4
+		}
 		st := explore(e, depth, tag)
 		tot.states += st.states
 		tot.transitions += st.transitions
@@ -1464,24 +1483,8 @@ func main() {
 		fmt.Printf("  %-40s alphabet=%d states=%d transitions=%d depth=%d iterChecks=%d snapChecks=%d reopen=%d complete=%v (%.1fs)\n",
 			s.name+tag, len(e.ops), st.states, st.transitions, st.depth, st.iterChecks, st.snapChecks, st.reopenChecks, st.exhaustive, time.Since(t0).Seconds())
 	}
-	ops := buildAlphabet(wkeys, bkeys, false)
-	dops := ops
-	if !th {
-		// quick: disk-backed subjects get one key less (81 instead of 243 model states); same ops otherwise
-		dops = buildAlphabet(append([][]byte{nil}, bs("", "a", "a\xff", "\xff")...), bkeys, false)
-	}
-	for _, s := range subjects {
-		if s.disk {
-			run(s, &env{s: s, keys: readKeys, bounds: bounds, ops: dops}, -1, "")
-		} else {
-			run(s, &env{s: s, keys: readKeys, bounds: bounds, ops: ops}, -1, "")
-		}
-	}
-	cops := buildAlphabet(ckeys, bs("a"), true)
-	for _, s := range csubjects {
-		run(s, &env{s: s, keys: append(append([][]byte{}, ckeys...), []byte("")), bounds: append([][]byte{nil}, bs("", "a", "b", "\xff")...), ops: cops}, -1, "")
-	}
-	// default (syncing) options of the disk backends: everything above runs them without fsync for speed
+	// order: cheap passes first, so that a budget cap (thorough) cuts the slow disk-backed fixpoints, not these
+	// 1. default (syncing) options of the disk backends: everything else runs them without fsync for speed
 	syncDepth := 1
 	if th {
 		syncDepth = 2
@@ -1489,12 +1492,34 @@ func main() {
 	for _, s := range []*subject{ldb, peb, bolt} {
 		run(s, &env{s: s, keys: readKeys, bounds: bounds, ops: buildAlphabet(append([][]byte{nil}, bs("a", "\xff")...), bs("a"), false), sync: true}, syncDepth, " [default options]")
 	}
+	// 2. aliasing probes: the four backends, and the wrappers over a backend that copies (so that a wrapper's own aliasing shows)
 	probes := 0
-	// aliasing probes: the four backends, and the wrappers over a backend that copies (so that a wrapper's own aliasing shows)
 	asubj := []*subject{mem, ldb, peb, bolt, prefixed("goleveldb", true, openLevel, "a", false), collecting("goleveldb", true, openLevel, false),
 		immutable("pebbledb", true, openPebble, false, true)}
 	for _, s := range asubj {
 		probes += aliasProbes(s, false)
+	}
+	// 3. CollectingDB
+	cops := buildAlphabet(ckeys, bs("a"), true)
+	for _, s := range csubjects {
+		run(s, &env{s: s, keys: append(append([][]byte{}, ckeys...), []byte("")), bounds: append([][]byte{nil}, bs("", "a", "b", "\xff")...), ops: cops}, -1, "")
+	}
+	// 4. key-value subjects: memory-backed first, then disk-backed
+	ops := buildAlphabet(wkeys, bkeys, false)
+	// disk-backed subjects get one key less than memory subjects (quick: 81 vs 243 model states, thorough: 243 vs 729)
+	dops := buildAlphabet(append([][]byte{nil}, bs("", "a", "a\xff", "\xff")...), bkeys, false)
+	if th {
+		dops = buildAlphabet(append([][]byte{nil}, bs("", "a", "a\xff", "b", "\xff")...), bkeys, false)
+	}
+	for _, s := range subjects {
+		if !s.disk {
+			run(s, &env{s: s, keys: readKeys, bounds: bounds, ops: ops}, -1, "")
+		}
+	}
+	for _, s := range subjects {
+		if s.disk {
+			run(s, &env{s: s, keys: readKeys, bounds: bounds, ops: dops}, -1, "")
+		}
 	}
 	os.RemoveAll(workRoot)
 	r.EvalN(tot.transitions)
